@@ -1,6 +1,6 @@
 """C11 - matrix / Euler conversions: structural clauses."""
 import ast
-from ..core import RuleResult, Finding, AnalysisError, dotted, src, norm_construct
+from ..core import RuleResult, Finding, AnalysisError, dotted, src, norm_construct, guarded, guarded_list
 from ..expr import inline_straight, returns_of, dump, subst
 from .. import masks, paths, layout
 
@@ -9,6 +9,7 @@ CONVERTERS = ['mat2SO3', 'mat2SE3', 'mat2Sim3', 'mat2RxSO3', 'from_matrix']
 FWD_PARAMS = ('check', 'rtol', 'atol')
 
 
+@guarded
 def rule_mp_pair(repo):
     mp = RuleResult('C11.MP', 'the branch masks mask_c0..c3 of the quaternion extraction form a partition (numerator and denominator sums)', floor=2)
     pr = RuleResult('C11.PAIRIDX', 'in the blended numerator and denominator, the candidate quaternion and the trace term weighted by one '
@@ -53,6 +54,7 @@ def rule_mp_pair(repo):
     return [mp, pr]
 
 
+@guarded
 def rule_fwd(repo):
     res = RuleResult('C11.FWD', 'every conversion with (check, rtol, atol) forwards them unchanged to each inner conversion that takes them', floor=7)
     for name in CONVERTERS:
@@ -80,6 +82,7 @@ def rule_fwd(repo):
     return res
 
 
+@guarded
 def rule_raise(repo):
     res = RuleResult('C11.RAISE', 'mat2SO3: with check enabled, each failed validity test (orthogonality, unit determinant; allclose with the '
                      'caller\'s rtol/atol) leads to raise ValueError on every path', floor=2)
@@ -153,6 +156,7 @@ def _fails(test, truth):
     return None
 
 
+@guarded
 def rule_disp(repo):
     res = RuleResult('C11.DISP', 'from_matrix maps each of the four group ltypes to its own converter and raises otherwise', floor=5)
     f = repo.func(CV, 'from_matrix')
@@ -191,6 +195,7 @@ def rule_disp(repo):
     return res
 
 
+@guarded
 def rule_lt(repo):
     res = RuleResult('C11.LT', 'mat2SE3 / mat2Sim3 / mat2RxSO3 concatenate translation, quaternion and scale in the order of the layout '
                      'table and wrap the result in the matching LieTensor alias', floor=3)
